@@ -68,6 +68,16 @@ def tx_lines(chk):
         h = b.hex()
         add(" ".join(h[i:i + 2] for i in range(0, len(h), 2)))
         add(h.upper()); add(h[:-1]); add(h[:10] + "zz" + h[12:]); add("0x" + h)
+    # every value of the flag byte of extended-format transactions (only 01 is defined; 00 there means "no inputs")
+    seg = [t for t in txs if t.serialize()[4] == 0 and len(t.serialize()) < 2000][: (3 if quick else 12)]
+    for t in seg:
+        b = t.serialize()
+        for v in range(256):
+            if v != b[5]:
+                add((b[:5] + bytes([v]) + b[6:]).hex())
+        # ... and of the marker byte
+        for v in (1, 2, 0xfd, 0xff):
+            add((b[:4] + bytes([v]) + b[5:]).hex())
     # compact-size forms
     base = "01000000"
     for cs in ["fd0000", "fdfc00", "fdfd00", "fe00000000", "feffff0000", "fe00000100", "ff0000000000000000", "fdffff", "fe00000002", "fe01000002", "feffffffff",
